@@ -444,7 +444,10 @@ pub fn get_file_change_description_from_file_paths(
             } else {
                 Cow::from(file)
             };
-            match (config.hyperlinks, utils::path::absolute_path(file, config)) {
+            // A note such as " (binary file)" may have been appended to the name for display; it
+            // is not part of the path that a hyperlink must point to.
+            let path = file.strip_suffix(" (binary file)").unwrap_or(file);
+            match (config.hyperlinks, utils::path::absolute_path(path, config)) {
                 (true, Some(absolute_path)) => features::hyperlinks::format_osc8_file_hyperlink(
                     absolute_path,
                     None,
